@@ -168,6 +168,28 @@ async def one_name(net, hyg, plan):
             ok, info = await guarded("mlst-relative-dir", c.stat(rel))
             if ok and info.get("type") != "dir":
                 viol.append({"key": "mlst-relative-wrong-object", "msg": f"stat({str(rel)!r}) from {str(pp)!r} -> {info}"})
+            # the same relative spelling twice in a row: first it is the directory (entered), then - from inside - the file
+            # of the same name (which cannot be entered, but can be looked at and fetched)
+            ok, _ = await guarded("cwd-relative", c.change_directory(rel))
+            if ok:
+                ok, cur = await guarded("pwd-relative", c.get_current_directory())
+                if ok and str(cur) != str(d):
+                    viol.append({"key": "pwd-differs:relative", "msg": f"CWD {str(rel)!r} from {str(pp)!r}: PWD {str(cur)!r}, expected {str(d)!r}"})
+                try:
+                    await c.change_directory(rel)
+                    ok2, cur2 = await guarded("pwd-relative2", c.get_current_directory())
+                    viol.append({"key": "cwd-into-file-accepted", "msg": f"second CWD {str(rel)!r} (now the file {str(f)!r}) was accepted; PWD {cur2}"})
+                except aioftp.StatusCodeError:
+                    pass
+                except (ConnectionError, ValueError) as e:
+                    viol.append({"key": "client-error:cwd-relative2", "msg": repr(e)[:200]})
+                ok, info = await guarded("mlst-relative-inside", c.stat(rel))
+                if ok and (info.get("type") != "file" or str(info.get("size")) != str(len(payload))):
+                    viol.append({"key": "mlst-relative-wrong-object", "msg": f"stat({str(rel)!r}) from inside {str(d)!r} -> {info} (the file has "
+                                                                             f"{len(payload)} bytes)"})
+                ok, ex = await guarded("exists-relative-missing", c.exists(rel / name))
+                if ok and ex is not False:
+                    viol.append({"key": "exists-true-for-missing", "msg": f"exists({str(rel / name)!r}) from inside {str(d)!r} is {ex}"})
             await guarded("cwd-root2", c.change_directory("/"))
         # 5 stat
         ok, info = await guarded("mlst", c.stat(f))
